@@ -237,7 +237,7 @@ def main(argv=None):
                 continue
             fail = dict(function=r['qualname'], obligation=o['id'], kind=o['kind'], text=o['text'],
                         verdict=o['verdict'], backend=o['backend'], reason=o.get('reason'),
-                        model=o.get('model'), src=o.get('src'))
+                        model=o.get('model'), src=o.get('src'), replay=o.get('replay'))
             violations.append(('obligation', fail))
     for nres in natives + bounded:
         if nres.get('error'):
@@ -255,7 +255,15 @@ def main(argv=None):
         if kind == 'obligation':
             c = REGISTRY.get(fn)
             found = None
-            if c is not None and c.native:
+            rp = v.get('replay')
+            if rp and rp.get('failures'):
+                found = dict(source='solver counter-model replayed on the real function',
+                             args=rp.get('args'), **rp['failures'][0])
+            elif rp:
+                v['model_replay'] = dict(status=rp.get('status'), args=rp.get('args'), note=rp.get('note'),
+                                         outcome='the real function satisfied the contract on the model input '
+                                                 '(the model exploits an abstraction) or the input was outside requires')
+            if found is None and c is not None and c.native:
                 nres = native_check(c, 3000, seed + 1, c.native.get('size', 4))
                 if nres.get('failures'):
                     found = nres['failures'][0]
